@@ -1448,12 +1448,16 @@ class _Run:
                 # integer conversions of k (`usize::try_from(k).ok()?`, `k as usize`) are views of the same number
                 lst = kids(kids(a0)[0])[0]
                 k = args[1]
-                for _ in range(4):
+                for _ in range(6):
                     if tag(k) == "unwrap":
                         k = kids(k)[0]
                     elif tag(k) == "call" and kids(k) and str(payload(k)[0]) in ("std::result::Result::ok", "std::convert::TryFrom::try_from", "std::convert::TryInto::try_into", "std::convert::From::from", "std::convert::Into::into"):
                         k = kids(k)[0]
                     elif tag(k) == "cast" and kids(k):
+                        k = kids(k)[0]
+                    elif tag(k) == "call" and len(kids(k)) == 2 and str(payload(k)[0]) in ("std::result::Result::unwrap_or", "std::option::Option::unwrap_or") \
+                            and tag(kids(k)[1]) == "int" and int(payload(kids(k)[1])[0]) >= 2 ** 32 - 1:
+                        # `usize::try_from(k).unwrap_or(usize::MAX)`: a count no list reaches stands for "further than the list"
                         k = kids(k)[0]
                     else:
                         break
